@@ -827,7 +827,7 @@ def write_pam(matrix, matrix_size, out, scale=1, border=None, dark='#000', light
         # BLACKANDWHITE: 1 = white, 0 = black
         colours = (pack('>B', _color_is_white(bg_color)), pack('>B', _color_is_white(stroke_color)))
     elif is_rgb:
-        maxval = max(chain(stroke_color, bg_color))
+        maxval = 255
         depth = 3 if not transparency else 4
         fmt = f'>{depth}B'.encode('ascii')
         colours = (pack(fmt, *bg_color), pack(fmt, *stroke_color))
